@@ -412,6 +412,12 @@ func AllRegoVersions(root string, conf *Config) (map[string]ast.RegoVersion, err
 		}
 
 		if manifest.RegoVersion != nil {
+			// a manifest in the root directory uses the same key as the project-wide
+			// setting of the config file, which then takes precedence below
+			if dir == "." {
+				dir = ""
+			}
+
 			versionsMap[dir] = regoVersionFromConfigValue(manifest.RegoVersion)
 		}
 	}
